@@ -91,6 +91,13 @@ func (ev *keyEval) fail(pos token.Pos, msg string) {
 }
 
 // keyRegistrars classifies functions that store into tScreen.keycodes by the shape of their guard.
+// regRoles: which parameter (position in the declaration, receiver not counted) of a registrar is the
+// key code, the modifier mask, the sequence, and — for replace-if — the key that may be replaced; found
+// by what the function does with them, not by their names.
+type regRoles struct{ key, mod, val, repl int }
+
+var registrarRoles = map[*types.Func]regRoles{}
+
 func keyRegistrars(c *Ctx, p *Prog) (map[*types.Func]registrarKind, map[*types.Func]bool, []string) {
 	regs := map[*types.Func]registrarKind{}
 	writers := map[*types.Func]bool{}
@@ -131,6 +138,7 @@ func keyRegistrars(c *Ctx, p *Prog) (map[*types.Func]registrarKind, map[*types.F
 		// the existence test: lookup of keycodes[val] with commaok
 		notExistEdge := false
 		replaceAlt := false
+		var replParam, keyParam, modParam *ssa.Parameter
 		for _, g := range gs {
 			if strings.Contains(g.L, "keycodes[") && strings.HasSuffix(g.L, "#1") && ((g.Op == "==" && g.R == "false") || (g.Op == "!=" && g.R == "true")) {
 				notExistEdge = true
@@ -152,8 +160,16 @@ func keyRegistrars(c *Ctx, p *Prog) (map[*types.Func]registrarKind, map[*types.F
 					if strings.Contains(at.L, "keycodes[") && strings.HasSuffix(at.L, "#1") && ((at.Op == "==" && at.R == "false") || (at.Op == "!=" && at.R == "true")) {
 						okA = true
 					}
-					if at.Op == "==" && ((strings.HasSuffix(at.L, ".key") && at.R == "replace") || (strings.HasSuffix(at.R, ".key") && at.L == "replace")) {
-						okB = true
+					// the old entry's key compared with a parameter: that parameter is "the key that may be replaced"
+					if bo, isBO := iff.Cond.(*ssa.BinOp); isBO && bo.Op == token.EQL && pr.Succs[0] == mu.Block() {
+						for _, pair := range [][2]ssa.Value{{bo.X, bo.Y}, {bo.Y, bo.X}} {
+							prm, isP := pair[1].(*ssa.Parameter)
+							ref, _, isF := loadedField(pair[0])
+							if isP && isF && ref.Name == "key" {
+								okB = true
+								replParam = prm
+							}
+						}
 					}
 				}
 				replaceAlt = okA && okB
@@ -172,11 +188,11 @@ func keyRegistrars(c *Ctx, p *Prog) (map[*types.Func]registrarKind, map[*types.F
 				for _, r2 := range referrers(fa) {
 					if st, ok := r2.(*ssa.Store); ok {
 						if prm, ok := st.Val.(*ssa.Parameter); ok {
-							if ref.Name == "key" && prm.Name() == "key" {
-								kOK = true
+							if ref.Name == "key" {
+								kOK, keyParam = true, prm
 							}
-							if ref.Name == "mod" && prm.Name() == "mod" {
-								mOK = true
+							if ref.Name == "mod" {
+								mOK, modParam = true, prm
 							}
 						}
 					}
@@ -185,16 +201,46 @@ func keyRegistrars(c *Ctx, p *Prog) (map[*types.Func]registrarKind, map[*types.F
 			storedOK = kOK && mOK
 		}
 		keyIsVal := false
-		if prm, ok := mu.Key.(*ssa.Parameter); ok && prm.Name() == "val" {
-			keyIsVal = true
+		var valParam *ssa.Parameter
+		if prm, ok := mu.Key.(*ssa.Parameter); ok {
+			if bt, isB := prm.Type().Underlying().(*types.Basic); isB && bt.Kind() == types.String {
+				keyIsVal, valParam = true, prm
+			}
+		}
+		// the non-empty test is about the sequence
+		if valParam != nil {
+			hasNonEmpty = false
+			for _, g := range gs {
+				if g.Op == "!=" && g.R == "\"\"" && g.L == valName(valParam) {
+					hasNonEmpty = true
+				}
+			}
 		}
 		if !(hasNonEmpty && storedOK && keyIsVal) {
 			continue
 		}
+		idx := func(prm *ssa.Parameter) int {
+			off := 0
+			if fn.Signature.Recv() != nil {
+				off = 1
+			}
+			for i, q := range fn.Params {
+				if q == prm {
+					return i - off
+				}
+			}
+			return -1
+		}
+		roles := regRoles{key: idx(keyParam), mod: idx(modParam), val: idx(valParam), repl: -1}
+		if replParam != nil {
+			roles.repl = idx(replParam)
+		}
 		if notExistEdge {
 			regs[obj] = regFirstWins
-		} else if replaceAlt {
+			registrarRoles[obj] = roles
+		} else if replaceAlt && roles.repl >= 0 {
 			regs[obj] = regReplaceIf
+			registrarRoles[obj] = roles
 		}
 	}
 	sort.Strings(names)
@@ -695,25 +741,19 @@ func (ev *keyEval) register(kind registrarKind, fd *ast.FuncDecl, call *ast.Call
 	var key, mod, repl kval
 	var val kval
 	valIdx := -1
-	i := 0
-	for _, fl := range fd.Type.Params.List {
-		for _, n := range fl.Names {
-			if i < len(args) {
-				switch n.Name {
-				case "key":
-					key = args[i]
-				case "mod":
-					mod = args[i]
-				case "val":
-					val = args[i]
-					valIdx = i
-				case "replace":
-					repl = args[i]
+	if callee := calleeObj(ev.pk, call); callee != nil {
+		if r, ok := registrarRoles[callee]; ok {
+			at := func(i int) kval {
+				if i >= 0 && i < len(args) {
+					return args[i]
 				}
+				return kval{}
 			}
-			i++
+			key, mod, val, repl = at(r.key), at(r.mod), at(r.val), at(r.repl)
+			valIdx = r.val
 		}
 	}
+	_ = fd
 	if key.kind != 'i' || mod.kind != 'i' || val.kind != 's' || (kind == regReplaceIf && repl.kind != 'i') {
 		ev.fail(call.Pos(), "registrar argument does not fold to a constant")
 		return
